@@ -107,7 +107,7 @@ def build(desc):
             d[build_key(k)] = build(c)
         return _apply_dict_hist(d, desc[2])
     if t == 'dd':
-        d = defaultdict(U.FACTORIES[desc[1]])
+        d = defaultdict(U.FACTORIES[desc[1]] if desc[1] in U.FACTORIES else U.FACTORIES_EXTRA[desc[1]])
         for k, c in desc[2]:
             d[build_key(k)] = build(c)
         return _apply_dict_hist(d, desc[3])
@@ -273,6 +273,8 @@ def _node(draw, budget, depth, keys, kinds, max_depth, leaf=None):
     rec = lambda b: _node(draw, b, depth + 1, keys, kinds, max_depth, leaf)  # noqa: E731
 
     def kids(maxk=4, mink=0):
+        if budget >= 2:
+            mink = max(mink, 1)     # a node with budget for leaves gets at least one child
         k = draw(st.integers(mink, max(mink, min(maxk, budget))))
         return [rec(b) for b in _split(draw, max(budget, k), k)]
 
@@ -501,6 +503,29 @@ def substitute_leaves(draw, desc, sub, prob_num=1, prob_den=3, at_least_one=Fals
     return root[0]
 
 
+
+def leaf_refs(desc_copy):
+    """(root holder, [(container, index)] of leaf positions) of an already copied description"""
+    root = [desc_copy]
+    refs = []
+    stack = [(root, 0)]
+    while stack:
+        c, i = stack.pop()
+        if c[i][0] in LEAF_TAGS:
+            refs.append((c, i))
+        stack.extend(reversed(children_refs(c[i])))
+    return root, refs
+
+
+def substitute_masked(draw, desc, subs, mask, bit):
+    """replace the leaf positions i with mask[i] & bit by the pre-drawn subtrees subs[i]"""
+    root, refs = leaf_refs(_copy.deepcopy(desc))
+    for j, (c, i) in enumerate(refs):
+        if j < len(mask) and mask[j] & bit:
+            c[i] = _copy.deepcopy(subs[j])
+    return root[0]
+
+
 def _node_refs(d):
     root = [d]
     out = []
@@ -643,7 +668,7 @@ PAIR_MODES = ('same', 'suffix', 'suffix', 'near_miss', 'near_miss', 'dict_varian
 def pair_descs(draw, max_leaves=10, kinds=None, modes=PAIR_MODES, keys=None):
     """-> {'a': prefix-ish desc, 'b': full-ish desc, 'rel': how b was derived from a, 'edit': ...}"""
     mode = draw(st.sampled_from(list(modes)))
-    sub = tree_descs(max(3, max_leaves // 3), kinds=kinds, keys=keys, max_depth=3)
+    sub = tree_descs(max(3, max_leaves // 3), kinds=kinds, keys=keys, max_depth=3, min_leaves=2)
     edit = None
     if mode.startswith('nested_dict'):
         a = draw(nested_dict_descs())
